@@ -102,4 +102,6 @@ def panel (f : Feat) : Panel :=
     prog := prog f,
     ctrl := .ssd (Ssd.por false 22 296) }
 
+attribute [driver_simp] W setBit setBits driverOutputBytes borderWaveForm displayUpdateControlBytes setRamArea setRamAddressCounters bufferLen init updateFrame displayFrame clearAchromatic clearChromatic achro chro prog
+
 end EpdVerif.Drivers.Epd2in13b_v4
